@@ -29,8 +29,8 @@ package pogreb
 //@   ensures loc: err == nil ==> segID == dl.curSeg.id && off >= 512 && int64(off) + 10 + int64(len(key)) + int64(len(value)) == dl.curSeg.file.size
 //@   ensures [C16] ksize: err == nil ==> le16(fData[fidOf[dl.curSeg.file.File]], int(off)) == uint16(len(key))
 //@   ensures [C16] vsize: err == nil ==> le32(fData[fidOf[dl.curSeg.file.File]], int(off)+2) == uint32(len(value))
-//@   ensures [C16] key: err == nil ==> forall j int :: 0 <= j && j < len(key) ==> fData[fidOf[dl.curSeg.file.File]][int(off)+6+j] == key[j]
-//@   ensures [C16] value: err == nil ==> forall j int :: 0 <= j && j < len(value) ==> fData[fidOf[dl.curSeg.file.File]][int(off)+6+len(key)+j] == value[j]
+//@   ensures [C16] key: err == nil ==> sameBytes(fData[fidOf[dl.curSeg.file.File]], int(off)+6, contents(key), off(key), len(key))
+//@   ensures [C16] value: err == nil ==> sameBytes(fData[fidOf[dl.curSeg.file.File]], int(off)+6+len(key), contents(value), off(value), len(value))
 //@   ensures kept: forall i int :: 0 <= i && i < 32767 && old(dl.segments[i]) != nil ==> dl.segments[i] == old(dl.segments[i])
 //@   ensures [C03] appendonly: err == nil ==> forall h ref :: old(hOpen[h]) ==> hOpen[h] && fidOf[h] == old(fidOf[h]) && fLen[fidOf[h]] >= old(fLen[fidOf[h]]) && (fidOf[h] != fidOf[dl.curSeg.file.File] ==> fLen[fidOf[h]] == old(fLen[fidOf[h]]) && fData[fidOf[h]] == old(fData[fidOf[h]]) && (fDur[fidOf[h]] == old(fDur[fidOf[h]]) || fDur[fidOf[h]] == fLen[fidOf[h]]))
 //@   flag lossless
